@@ -284,7 +284,54 @@ func clauseTags(c *Contract, cl *Clause) []string {
 	if len(own) > 0 {
 		return own
 	}
-	return c.Tags
+	if len(c.Tags) > 0 {
+		return c.Tags
+	}
+	// an untagged helper clause (loop invariant, variant) of a contract without function-level tags supports every
+	// tagged clause of that contract: it serves the union of their properties
+	return c.allClauseTags()
+}
+
+func (c *Contract) allClauseTags() []string {
+	seen := map[string]bool{}
+	var out []string
+	add := func(ts []string) {
+		for _, t := range ts {
+			if t != "TRUSTED" && t != "-" && !seen[t] {
+				seen[t] = true
+				out = append(out, t)
+			}
+		}
+	}
+	for _, cl := range c.Ensures {
+		add(cl.Tags)
+	}
+	for _, cl := range c.Requires {
+		add(cl.Tags)
+	}
+	for _, cl := range c.AtReturns {
+		add(cl.Tags)
+	}
+	for _, ac := range c.AtCalls {
+		add(ac.Clause.Tags)
+	}
+	for _, ac := range c.AtStores {
+		add(ac.Clause.Tags)
+	}
+	for _, ls := range c.Loops {
+		for _, cl := range ls.Invariants {
+			add(cl.Tags)
+		}
+		for _, cl := range ls.AtEnd {
+			add(cl.Tags)
+		}
+		for _, cl := range ls.AtEntry {
+			add(cl.Tags)
+		}
+		add(ls.Complete)
+	}
+	sort.Strings(out)
+	return out
 }
 
 func (x *fnExec) contractCall(fr *frame, st *State, ci ssa.CallInstruction, res ssa.Value, fn *ssa.Function, c *Contract, args []Val, fresh func(string) Val) {
@@ -640,9 +687,18 @@ func (p *Program) effectsPass(fn *ssa.Function, e *effectSet) {
 					}
 					if strings.HasPrefix(f.String(), "(*sync.Mutex).") || strings.HasPrefix(f.String(), "(*sync.RWMutex).") {
 						e.keys["X:held"] = true
+						e.keys["X:released"] = true
+						// note: a callee that releases and re-acquires a lock lets other goroutines run; that interference is
+						// modelled only inside the function being verified (see builtin.go), not in callee summaries
 					}
-					if c := p.Contracts[funcKey(f)]; c != nil && c.HasMod && false {
-						continue
+					if c := p.Contracts[funcKey(f)]; c != nil && c.HasMod && len(c.BindErr) == 0 {
+						// declared (and checked) frame of the callee, relative to the actual arguments
+						if ks, ok := p.modifiesKeys(c, f, cc.Args); ok {
+							for _, k := range ks {
+								e.keys[k] = true
+							}
+							continue
+						}
 					}
 					e.add(p.effectsOf(f))
 					p.externalWriteEffects(f, cc, e)
@@ -867,6 +923,36 @@ func (x *fnExec) havocKeys(st *State, exact map[string]bool, prefixes []string) 
 }
 
 
+// relocks reports whether fn contains an Unlock followed (in block order) by a Lock: a window for other goroutines.
+func (p *Program) relocks(fn *ssa.Function) bool {
+	unlocked := false
+	for _, b := range fn.Blocks {
+		for _, in := range b.Instrs {
+			c, ok := in.(*ssa.Call)
+			if !ok {
+				continue
+			}
+			sc := c.Call.StaticCallee()
+			if sc == nil {
+				continue
+			}
+			s := sc.String()
+			if !strings.HasPrefix(s, "(*sync.Mutex).") && !strings.HasPrefix(s, "(*sync.RWMutex).") {
+				continue
+			}
+			switch sc.Name() {
+			case "Unlock", "RUnlock":
+				unlocked = true
+			case "Lock", "RLock":
+				if unlocked {
+					return true
+				}
+			}
+		}
+	}
+	return false
+}
+
 // explainTop prints why a function's effect set is unknown (debugging aid).
 func (p *Program) explainTop(fn *ssa.Function, seen map[string]bool, ind string) {
 	k := fn.String()
@@ -953,4 +1039,85 @@ func (x *fnExec) markFreshResults(c *Contract, fn *ssa.Function, rv Val) {
 			}
 		}
 	}
+}
+
+// modifiesKeys maps a callee's declared modifies clause to heap keys at a call site with the given actual arguments
+// (static address prefixes). It fails when a target is not of the form param.field[.field][[*]].
+func (p *Program) modifiesKeys(c *Contract, f *ssa.Function, args []ssa.Value) ([]string, bool) {
+	var out []string
+	for _, m := range c.Modifies {
+		if m == "*" {
+			return nil, false
+		}
+		elems := false
+		if strings.HasSuffix(m, "[*]") {
+			elems = true
+			m = strings.TrimSuffix(m, "[*]")
+		}
+		parts := strings.Split(m, ".")
+		idx := -1
+		for i, prm := range f.Params {
+			if prm.Name() == parts[0] {
+				idx = i
+			}
+		}
+		if idx < 0 || idx >= len(args) || len(parts) < 2 {
+			return nil, false
+		}
+		pt, ok := f.Params[idx].Type().Underlying().(*types.Pointer)
+		if !ok {
+			return nil, false
+		}
+		prefix := staticAddrPrefix(args[idx])
+		if prefix == "?" {
+			return nil, false
+		}
+		var cur types.Type = pt.Elem()
+		okPath := true
+		for i := 1; i < len(parts); i++ {
+			st, isStruct := cur.Underlying().(*types.Struct)
+			if !isStruct {
+				okPath = false
+				break
+			}
+			if parts[i] == "*" && i == len(parts)-1 {
+				break
+			}
+			var fld *types.Var
+			for j := 0; j < st.NumFields(); j++ {
+				if st.Field(j).Name() == parts[i] {
+					fld = st.Field(j)
+				}
+			}
+			if fld == nil {
+				okPath = false
+				break
+			}
+			prefix += "." + fld.Name()
+			cur = fld.Type()
+			if i < len(parts)-1 {
+				if _, isS := cur.Underlying().(*types.Struct); !isS {
+					okPath = false // pointer hop: the static prefix is not known
+					break
+				}
+			}
+		}
+		if !okPath {
+			return nil, false
+		}
+		if elems {
+			sl, isSl := cur.Underlying().(*types.Slice)
+			if !isSl {
+				return nil, false
+			}
+			for _, l := range leaves(sl.Elem()) {
+				out = append(out, "E:"+typeName(sl.Elem())+l.path)
+			}
+			continue
+		}
+		for _, l := range leaves(cur) {
+			out = append(out, prefix+l.path)
+		}
+	}
+	return out, true
 }
